@@ -21,7 +21,7 @@ func (vc *VC) bvType(t types.Type) bool {
 // hasRefs reports whether values of type t contain references (pointers, slices, maps).
 func (vc *VC) hasRefs(t types.Type) bool {
 	switch u := vc.under(t).(type) {
-	case *types.Pointer, *types.Slice, *types.Map, *types.Chan:
+	case *types.Pointer, *types.Slice, *types.Map, *types.Chan, *types.Interface:
 		return true
 	case *types.Struct:
 		for i := 0; i < u.NumFields(); i++ {
